@@ -4,6 +4,7 @@ model (Model/ConnOps.lean over the regenerated programs of Gen/ConnLegacy.lean).
 -/
 import KafkaVerif.Base.Proto
 import KafkaVerif.Model.ConnSpecs
+import KafkaVerif.Model.ConnVersions
 import KafkaVerif.Spec.ConnFrames
 
 namespace KV.OracleConn
